@@ -8,6 +8,7 @@
 -/
 import Proofs.RoundTrip
 import Proofs.Renorm
+import Props.C08
 namespace Scale.C02
 open Scale
 
@@ -32,6 +33,19 @@ theorem roundtrip_any_order (ty : Ty) (raw : Val) (hw : widthsOk ty = true) (hla
     (hb : noBits ty = true) (hwf : wf ty raw = true) (rest : Bytes) :
     decode ty (Spec.encode ty raw ++ rest) = (.ok (renorm ty raw), rest) :=
   (exact_language ty hw hlayout hb _ rest _).mpr ⟨raw, hwf, rfl, rfl⟩
+
+/-- The round trip through ANY faithful input (a reader of unknown length, arbitrary short chunks
+    under `read_exact`, the shared buffer with its zero-copy path, stacks of non-binding wrappers):
+    the value comes back and the input is left with exactly the bytes that follow the encoding. -/
+theorem roundtrip_any_input {σ : Type} {I : InputOps σ} {R : Bytes → σ → Prop} (hI : Faithful I R) (ty : Ty) (v : Val)
+    (hwf : wf ty v = true) (hcanon : canon ty v = true) (hlayout : layoutOk ty = true) (rest : Bytes) (s : σ)
+    (hr : R (Spec.encode ty v ++ rest) s) :
+    (run I (Impl.decodeP ty) s).1 = .ok (norm ty v) ∧ R rest (run I (Impl.decodeP ty) s).2 := by
+  have h := decode_encode ty v hwf hcanon hlayout rest
+  obtain ⟨e, k⟩ := C08.decode_input_independent hI (Impl.decodeP ty) _ s hr
+  have hs : run sliceInput (Impl.decodeP ty) (Spec.encode ty v ++ rest) = (.ok (norm ty v), rest) := h
+  rw [hs] at e k
+  exact ⟨e, k _ rfl⟩
 
 /-- Heaps come back equal as multisets: the decoded content is a permutation of the encoded one. -/
 theorem heap_multiset (sz : Nat) (t : Ty) (vs : List Val) :
